@@ -429,7 +429,13 @@ class Interp:
             return fn(*args, **kwargs)  # operations of the symbolic value classes / sidecar helpers run natively
         for key in ("%s.%s" % (mod, name), name):
             if key in self.calls:
+                if self.calls[key] == "native":  # the contract vouches for running this callable natively
+                    return fn(*args, **kwargs)
                 return self.calls[key](self, *args, **kwargs)
+        if isinstance(fn, types.MethodType) and not isinstance(fn.__self__, type):
+            key = "%s.%s" % (type(fn.__self__).__name__, fn.__name__)  # bound method of a real object
+            if key in self.calls:
+                return self.calls[key](self, fn.__self__, *args, **kwargs)
         from . import models
         handled, value = models.builtin_call(self, fn, args, kwargs)
         if handled:
